@@ -1137,6 +1137,10 @@ class Executor:
         idx = self.eval(e.slice, env)
         if isinstance(base, Seq):
             return self.seq_get(base, idx, e)
+        if isinstance(base, V.TupleSeq):
+            iz = V.to_z3(idx)
+            self.safety("index", z3.And(iz >= 0, iz < V.to_z3(base.length)), e)
+            return Seq("tuple", [z3.Select(a, iz) for a in base.arrays])
         if isinstance(base, ObjSeq):
             if isinstance(idx, int) and idx < 0:
                 idx = V.to_z3(base.length) + idx
@@ -1221,7 +1225,42 @@ class Executor:
             return it
         raise OutOfSubset("iteration over a symbolic collection in an expression", node)
 
+    def quantified_all_any(self, e, env):
+        """all(<bool expr> for v in range(n)) / any(...) with symbolic n: a bounded quantifier over the loop variable (the element
+        expression must be pure and must not branch)"""
+        gen = e.args[0]
+        g = gen.generators[0]
+        it = self.eval(g.iter, env)
+        if not (isinstance(it, RangeV) and it.step == 1 and isinstance(g.target, ast.Name) and not g.ifs):
+            return None
+        if all(isinstance(x, int) for x in (it.lo, it.hi)):
+            return None
+        v = z3.Int("q!%s!%d" % (g.target.id, len(self.trace)))
+        sub = dict(env)
+        sub[g.target.id] = v
+        n_trace, n_obl, n_pc = len(self.trace), len(self.obligations), len(self.pc)
+        self.pc.append(z3.And(V.to_z3(it.lo) <= v, v < V.to_z3(it.hi)))
+        self.pc_tags.append("path")
+        try:
+            body = self.truth(self.eval(gen.elt, sub))
+        finally:
+            del self.pc[n_pc:]
+            del self.pc_tags[n_pc:]
+        if len(self.trace) != n_trace:
+            raise OutOfSubset("branching inside a quantified all()/any() element expression", e)
+        # safety obligations raised inside the element expression were generated under the range hypothesis: keep them (they mention v, skolem-like)
+        body = V.to_z3(body)
+        rng = z3.And(V.to_z3(it.lo) <= v, v < V.to_z3(it.hi))
+        if e.func.id == "all":
+            return z3.ForAll([v], z3.Implies(rng, body))
+        return z3.Exists([v], z3.And(rng, body))
+
     def e_Call(self, e, env):
+        if isinstance(e.func, ast.Name) and e.func.id in ("all", "any") and len(e.args) == 1 and isinstance(e.args[0], (ast.GeneratorExp, ast.ListComp)) \
+                and len(e.args[0].generators) == 1 and e.func.id not in env:
+            r = self.quantified_all_any(e, env)
+            if r is not None:
+                return r
         fv = self.eval(e.func, env)
         args = []
         for a in e.args:
